@@ -23,7 +23,7 @@ import (
 // tokens in rounds (what its counter worker does: ExpectToken, AddAcquiring, the call, SetLimit with the answer); the
 // history plays the server.
 func TestPropCountTokenBucket(t *testing.T) {
-	sub := stats.NewSub("count-token-bucket", "rapid state machine on the real UpstreamLimiter in remote mode (global-count, token bucket, local qps/burst <= global qps/burst, global qps 1..2000); the history drives the token protocol the way the counter worker does (round: ExpectToken, AddAcquiring, request recorded as pending; answer: SetLimit with a hook-built AcquireResult for a pending request, in order or reordered) and plays the server: accept with the asked tokens, fewer, 0, or a hostile number {-1,-5,MinInt32,MaxInt32,asked+3}; refuse; error strings; RequestIDTooOld; ops readiness up/down, bursts of 1-200 sequential TryAcquire calls, recovery probe (the server answers every pending and every further request, also one resync request for 0 tokens, with exactly the tokens asked for, then the instance must hold a token and - global qps >= 25, one probe in three - one request is made after waiting 1.5/qps s for the instance's own bucket); oracle: per segment (one limiter, one configuration) admitted calls <= burst + qps*T with the global values while the server answers, the local values while it is not ready, and max(local qps, metered rate read around the failing answer) while it is failing; the very first request is admitted, and so is the first request after the server starts failing when it is made 1.5/qps s later (rate in force >= 25; local limit, not zero); after a recovery probe the instance holds >= 1 token and the request is admitted (server-granted tokens take effect again) unless the server ever granted a negative or absurd number of tokens; non-trivial = an error answer, a hostile number or a readiness flip was delivered; distinct by FNV-64 of the op trace")
+	sub := stats.NewSub("count-token-bucket", "rapid state machine on the real UpstreamLimiter in remote mode (global-count, token bucket, local qps/burst <= global qps/burst, global qps 1..2000); the history drives the token protocol the way the counter worker does (round: ExpectToken, AddAcquiring, request recorded as pending; answer: SetLimit with a hook-built AcquireResult for a pending request, in order or reordered) and plays the server: accept with the asked tokens, fewer, 0, or a hostile number {-1,-5,MinInt32,MaxInt32,asked+3}; refuse; error strings; RequestIDTooOld; ops readiness up/down, schema update followed by one reconcile round (new local and global qps / burst, also while the server is failing), bursts of 1-200 sequential TryAcquire calls, recovery probe (the server answers every pending and every further request, also one resync request for 0 tokens, with exactly the tokens asked for, then the instance must hold a token and - global qps >= 25, one probe in three - one request is made after waiting 1.5/qps s for the instance's own bucket); oracle: per segment (one limiter, one configuration) admitted calls <= burst + qps*T with the global values while the server answers, the local values while it is not ready, and max(local qps, metered rate read around the failing answer) while it is failing; the very first request is admitted, and so is the first request after the server starts failing when it is made 1.5/qps s later (rate in force >= 25; local limit, not zero); after a recovery probe the instance holds >= 1 token and the request is admitted (server-granted tokens take effect again) unless the server ever granted a negative or absurd number of tokens; non-trivial = an error answer, a hostile number or a readiness flip was delivered; distinct by FNV-64 of the op trace")
 	stats.Check(t, stats.N(800, 8000), func(t *rapid.T) {
 		var gq int32
 		if rapid.Bool().Draw(t, "smallGlobal") {
@@ -264,6 +264,35 @@ func TestPropCountTokenBucket(t *testing.T) {
 					}
 				}
 				trace += fmt.Sprintf("calls(%d,admitted=%d,%s);", n, admitted, kind)
+			},
+			"schemaUpdate": func(t *rapid.T) {
+				if expired() {
+					return
+				}
+				// the configured limits change and one reconcile round hands them to the remote wrapper; the limiter in
+				// force is rebuilt or resized, so a new window starts; while the server is failing the fallback keeps
+				// its own rate until the recovery
+				flush()
+				if rapid.Bool().Draw(t, "smallGlobal") {
+					gq = int32(rapid.IntRange(1, 40).Draw(t, "newGlobalQPS"))
+				} else {
+					gq = int32(rapid.IntRange(40, 2000).Draw(t, "newGlobalQPS"))
+				}
+				gb = gq + int32(rapid.IntRange(0, int(gq)).Draw(t, "newGlobalBurstExtra"))
+				lq = int32(rapid.IntRange(1, int(gq)).Draw(t, "newLocalQPS"))
+				m := int(gb - lq)
+				if m > 10 {
+					m = 10
+				}
+				lb = lq + int32(rapid.IntRange(0, m).Draw(t, "newLocalBurstExtra"))
+				ul.Sync(schemaTB(proxyv1alpha1.GlobalCountLimit, lq, lb, gq, gb))
+				remote.VerifReconcileOnce(flowcontrols.VerifReconcile(ul))
+				if errorMode && errBound < lq {
+					// (the fallback was sized max(metered rate, local qps) with the local qps of that time)
+				}
+				trace += fmt.Sprintf("schema(local=%d/%d,global=%d/%d);", lq, lb, gq, gb)
+				nt = true
+				sub.Class("schema-update")
 			},
 			"recoveryProbe": func(t *rapid.T) {
 				if expired() {
